@@ -4,7 +4,8 @@
        --stringify + Record (model.Params, after 2f01647: quoting)--> recorded string --Tokenize--> pairs (retry / restart)
    A character is one of  w (word character)  s (blank)  q (double quote)  e (equals sign)  b (backslash).
    Tokenize transcribes the regular expression
-       (?:([^\s=]+)=)?("(?:\\"|[^"])*"|[^"\s]+)          (leftmost match, greedy, optional group tried first)
+       (?:([^\s="]+)=)?("(?:\\"|[^"])*"|[^"\s]+)         (leftmost match, greedy, optional group tried first;
+                                                           since the F-11d fix a name cannot contain a quote)
    and the unquoting that follows (Trim of quotes, \" -> ").  The harness checks this transcription against
    the real parser on every string over the alphabet up to length 7 (ParamsObserve, kind "tok").
    TLC enumerates every structure of up to 2 parameters with values up to 3 characters and checks the round
@@ -28,7 +29,7 @@ Render(ps) == IF ps = <<>> THEN <<>>
 
 \* ---- Tokenize: the regular expression -------------------------------------------------------------
 \* longest run of characters from position i that satisfy P; returns the end position (exclusive)
-NameChar(c)  == c \notin {"s", "e"}
+NameChar(c)  == c \notin {"s", "e", "q"}
 BareChar(c)  == c \notin {"q", "s"}
 RECURSIVE NameEnd(_, _), BareEnd(_, _)
 NameEnd(s, i) == IF i <= Len(s) /\ NameChar(s[i]) THEN NameEnd(s, i + 1) ELSE i
@@ -85,11 +86,14 @@ RecordAll(ps) == IF ps = <<>> THEN <<>>
 \* ---- the guarantees -----------------------------------------------------------------------------------
 SeenAtStart(ps) == Tokenize(Render(ps))
 SeenAtRetry(ps) == Tokenize(RecordAll(SeenAtStart(ps)))
-\* a positional value that contains '=' cannot be told from a named parameter once it is stringified, and its
-\* quoted form is mis-tokenized (the name group may start with a quote): open finding F-11d
-Expressible(ps) == \A i \in DOMAIN ps : ~(ps[i].name = <<>> /\ Has(ps[i].value, "e"))
-C11_StartSeesGiven(ps) == Expressible(ps) => SeenAtStart(ps) = ps
-C11_RetrySeesSame(ps)  == Expressible(ps) => SeenAtRetry(ps) = SeenAtStart(ps)
+\* What a step sees: $i is the stringified i-th parameter, $NAME the value of a named one.  A positional value that
+\* contains '=' is recorded as it was given (k=v) and reads as a named parameter in the retry: $i is the same, the retry
+\* additionally sees a variable k - the given values are all there.
+PosView(xs) == [i \in DOMAIN xs |-> Stringify(xs[i])]
+NamedView(xs) == {<<xs[i].name, xs[i].value>> : i \in {j \in DOMAIN xs : xs[j].name # <<>>}}
+C11_StartSeesGiven(xs) == SeenAtStart(xs) = xs
+C11_RetrySeesSame(xs)  == /\ PosView(SeenAtRetry(xs)) = PosView(SeenAtStart(xs))
+                          /\ NamedView(SeenAtStart(xs)) \subseteq NamedView(SeenAtRetry(xs))
 
 \* ---- exhaustive check over small structures -----------------------------------------------------------
 CONSTANTS MaxLen
@@ -103,5 +107,4 @@ Init == ps \in {<<p>> : p \in One} \cup {<<p, r>> : p \in One, r \in {x \in One 
 Next == UNCHANGED ps
 C11_Start == C11_StartSeesGiven(ps)
 C11_Retry == C11_RetrySeesSame(ps)
-Lead_C11_PositionalEquals == SeenAtStart(ps) = ps
 =============================================================================
